@@ -31,7 +31,7 @@ ASSUMPTIONS = ["same computation twice is compared bitwise (gradient at each ste
                "reference loop under the same torch seed) - one CPU thread, deterministic algorithms",
                "lazy models: parameter equality with the reference loop is not asserted (the materialisation pass consumes randomness); "
                "the step-local gradient check covers them"]
-PROBES = ["epochs_0", "epochs_ge2", "n_times_ge2", "validation_off", "optimizer_instance", "optimizer_class", "lazy_model", "dropout_model",
+PROBES = ["mode_switched_below_the_hedger", "epochs_0", "epochs_ge2", "n_times_ge2", "validation_off", "optimizer_instance", "optimizer_class", "lazy_model", "dropout_model",
           "prev_hedge", "H2", "init_state", "ambient_no_grad", "entered_in_eval_mode", "second_fit_same_hedger", "param_equal_reference",
           "step_local_grad", "stale_grad_at_entry", "same_optimizer_class_again"]
 
@@ -121,6 +121,9 @@ def generate(rng):
     for _ in range(rng.choice([1, 1, 2])):
         if rng.chance(0.3):
             ops.append({"fault": "mode", "mode": rng.choice(["eval", "train"])})
+        if rng.chance(0.25):
+            # the mode of the wrapped model (or of one of its layers) was switched directly, behind the hedger's back
+            ops.append({"fault": "mode", "mode": rng.choice(["eval", "eval", "train"]), "target": rng.choice(["model", "layer"])})
         if rng.chance(0.2):
             ops.append({"op": "pre_hedge", "n_paths": rng.choice([1, 3]), "torch_seed": rng.seed31()})
         if rng.chance(0.3):
@@ -191,9 +194,17 @@ def _execute(program, stats, hist):
             hist.add(fault="stale_grad")
             continue
         if "fault" in op:
-            (h.eval if op["mode"] == "eval" else h.train)()
+            tgt = h
+            if op.get("target") == "model":
+                tgt = h.model
+            elif op.get("target") == "layer":
+                subs = [m for m in h.model.modules() if not list(m.children())]
+                tgt = subs[0] if subs else h.model
+            (tgt.eval if op["mode"] == "eval" else tgt.train)()
             stats.fault("F6_mode_flip")
-            if op["mode"] == "eval":
+            if op.get("target"):
+                stats.probe("mode_switched_below_the_hedger")
+            elif op["mode"] == "eval":
                 stats.probe("entered_in_eval_mode")
             hist.add(fault="mode", mode=op["mode"])
             continue
@@ -393,7 +404,7 @@ def _fit_op(world, program, op, h, d, p0, mspec, hspec, stats, hist, seq):
         fw = [x for x in events if x["ev"] == "forward" and sim["seq"] < x["seq"] < c["seq"]]
         for x in fw:
             stats.checks += 1
-            if not x["training"] or not x["grad"]:
+            if not x["training"] or not x.get("training_all", True) or not x["grad"]:
                 raise Violation(ID, "training_mode", site, dict(cfg, epoch=e, training=x["training"], grad=x["grad"]), seq)
             if x["n"] != n_paths:
                 raise Violation(ID, "training_batch_arguments", site, dict(cfg, epoch=e, forward_batch=x["n"]), seq)
@@ -407,7 +418,7 @@ def _fit_op(world, program, op, h, d, p0, mspec, hspec, stats, hist, seq):
             if vc["grad"] or vc["requires_grad"]:
                 raise Violation(ID, "validation_with_grad", site, dict(cfg, epoch=e), seq)
             for x in [x for x in events if x["ev"] == "forward" and vs["seq"] < x["seq"] < vc["seq"]]:
-                if x["training"] or x["grad"]:
+                if x["training"] or x.get("training_any", False) or x["grad"]:
                     raise Violation(ID, "validation_mode", site, dict(cfg, epoch=e, training=x["training"], grad=x["grad"]), seq)
             vals.append(vc["value"])
         if validation:
